@@ -30,6 +30,7 @@ var (
 	loaded   bool
 	Failures []string
 	Reached  = map[string]bool{}
+	Pruned   string
 )
 
 func load() {
@@ -60,6 +61,7 @@ func ResetReplay() {
 	seq = map[string]int{}
 	Failures = nil
 	Reached = map[string]bool{}
+	Pruned = ""
 }
 
 func next(name string) *big.Int {
@@ -84,6 +86,36 @@ func U16(name string) uint16 { return uint16(next(name).Uint64()) }
 func U8(name string) uint8   { return uint8(next(name).Uint64()) }
 func I64(name string) int64  { return int64(next(name).Uint64()) }
 func Bool(name string) bool  { return next(name).Sign() != 0 }
+
+// Search returns a value in [0,n). Under the engine it is an ordinary
+// nondeterministic input; in native replay, when the model's value does not
+// make an assertion fail (typically because the model fixed the outcome of an
+// idealised hash), ReplayMain retries the harness over all values of each
+// Search variable and reports a failure only if the real code fails.
+func Search(name string, n uint64) uint64 {
+	mu.Lock()
+	k := fmt.Sprintf("%s#%d", name, seq[name])
+	if _, ok := searchDom[k]; !ok {
+		searchDom[k] = n
+		searchOrd = append(searchOrd, k)
+	}
+	ov, has := searchSet[k]
+	mu.Unlock()
+	v := next(name).Uint64()
+	if has {
+		v = ov
+	}
+	if v >= n {
+		panic(pruned{"Search out of range"})
+	}
+	return v
+}
+
+var (
+	searchDom = map[string]uint64{}
+	searchOrd []string
+	searchSet = map[string]uint64{}
+)
 
 // Int returns an int in [lo,hi].
 func Int(name string, lo, hi int) int {
@@ -165,14 +197,75 @@ func HashBytes(b []byte) [32]byte { return blake2b.Sum256(b) }
 // Held reports whether mu is held (engine only; natively unknown => true).
 func Held(mu *sync.Mutex) bool { return true }
 
+// SetModel installs a model for native replay.
+func SetModel(m map[string]string) {
+	mu.Lock()
+	defer mu.Unlock()
+	loaded = true
+	model = m
+}
+
+// ReplayMain replays the batch file named by VERIF_REPLAY_BATCH against the
+// natively compiled harnesses and prints one line per item.
+func ReplayMain(hs map[string]func()) {
+	p := os.Getenv("VERIF_REPLAY_BATCH")
+	if p == "" {
+		return
+	}
+	b, err := os.ReadFile(p)
+	if err != nil {
+		panic(err)
+	}
+	var items []struct {
+		ID      string            `json:"id"`
+		Harness string            `json:"harness"`
+		Model   map[string]string `json:"model"`
+	}
+	if err := json.Unmarshal(b, &items); err != nil {
+		panic(err)
+	}
+	for _, it := range items {
+		h, ok := hs[it.Harness]
+		if !ok {
+			continue
+		}
+		SetModel(it.Model)
+		searchDom, searchOrd, searchSet = map[string]uint64{}, nil, map[string]uint64{}
+		failed, panicked := RunReplay(h)
+		if len(failed) == 0 && panicked == nil && len(searchOrd) > 0 {
+			budget := 20000
+		search:
+			for _, k := range append([]string{}, searchOrd...) {
+				for v := uint64(0); v < searchDom[k] && budget > 0; v++ {
+					budget--
+					searchSet = map[string]uint64{k: v}
+					failed, panicked = RunReplay(h)
+					if len(failed) > 0 || panicked != nil {
+						break search
+					}
+				}
+			}
+			searchSet = map[string]uint64{}
+		}
+		var reached []string
+		for k := range Reached {
+			reached = append(reached, k)
+		}
+		out, _ := json.Marshal(map[string]any{"id": it.ID, "failed": failed, "reached": reached, "panic": fmt.Sprint(panicked), "panicked": panicked != nil, "pruned": Pruned})
+		fmt.Printf("VERIF-REPLAY %s\n", out)
+	}
+}
+
 // RunReplay runs a harness natively and reports the failed assertion labels.
 func RunReplay(h func()) (failed []string, panicked any) {
 	ResetReplay()
 	func() {
 		defer func() {
 			if r := recover(); r != nil {
-				switch r.(type) {
-				case Failed, pruned:
+				switch r := r.(type) {
+				case Failed:
+				case pruned:
+					Pruned = r.why
 				default:
 					panicked = r
 				}
